@@ -36,6 +36,11 @@ CHECKS['C07'] = dict(
    text='Generated-input search with step invariants. Monitors (harness-side subclasses of deque / Stack / Tape and wrappers of run_tape / OP_CALL / OP_EVAL) check after every stack mutation that length <= max_items and every item <= max_item_size, that no append reaches a deque at maxlen (silent drop), that every read is non-negative, in bounds and monotone per activation, that the live CALL/EVAL chain and callstack_count stay <= the limit, that loop resets stay <= the limit, and that every rejected put / read / call ends in ScriptExecutionError. Escaping MemoryError / RecursionError / SystemError, token_bytes requests above the item limit and a tracemalloc peak above a bound derived from the limits are violations. A fixed family nests IF / TRY / LOOP / IF_ELSE to depth 1200 and recurses through CALL / EVAL under call limits up to 2000.',
    note='Monitors abort the case at the first violation (a non-terminating loop is detected through the iteration bound, not waited for). Recursion headroom is pinned to 1000 frames. Vacuity guards require every limit class (item size, full stack, read past end, call, loop) to be hit.',
    design='3/C07')
+CHECKS['C08'] = dict(
+   technique='Hypothesis-generated cache-writing scripts x embedder caches executed on a recording dict (every mutation logged with key type); deep-copy comparison and consequence probes',
+   text='Generated-input search with a step monitor. The cache handed to run_tape is a dict subclass that logs every __setitem__ / __delitem__ / pop / update / setdefault / clear / |= with its key; any mutation under a non-bytes key (other than the interpreter\'s control key "returned") at any step, in successful and failed runs, is a violation, as is any embedder entry that is missing or differs in value or type from a deep copy afterwards (also in the cache run_script returns), and any change in what GET_MESSAGE / CHECK_TIMESTAMP observe after the script. Scripts concentrate on the ~20 cache-writing paths with keys spelling the protected names in several encodings, nested in every construct, plus mutated byte soup.',
+   note='No plugin or contract is installed (the property\'s precondition). Program key operands are biased to the keys of the drawn cache. The key "returned" is interpreter-owned and never supplied.',
+   design='3/C08')
 NOT_YET = {}
 for i in range(1, 21):
     pid = 'C%02d' % i
